@@ -124,6 +124,27 @@ UnitOf(sc, l) == IF \E s \in 1..Len(sc.arena) : sc.arena[s].k = "O" /\ l \in Seq
                  THEN CHOOSE s \in 1..Len(sc.arena) : sc.arena[s].k = "O" /\ l \in SeqRange(sc.arena[s].ms)
                  ELSE 0
 
+\* guard drop plan: declared structure, depth first, as segments [p, ls]:
+\* p # 0 marks the PoisonRef of poisonable collection p (dropped BEFORE the
+\* guards it wraps), ls are leaves released in order
+RECURSIVE GPlanC(_, _)
+GPlanItem(sc, it) == IF it.c # 0 THEN GPlanC(sc, it.c)
+                     ELSE <<[p |-> 0, ls |-> IF sc.arena[it.s].k = "O" THEN sc.arena[it.s].ms ELSE <<it.s>>]>>
+GPlanC(sc, c) ==
+  LET co == sc.colls[c]
+      sub == Flatten([i \in 1..Len(co.items) |-> GPlanItem(sc, co.items[i])])
+  IN IF co.kind = "pois" THEN <<[p |-> c, ls |-> <<>>]>> \o sub ELSE sub
+
+\* leaves visited by `{:?}` formatting of a collection (declared order; a boxed
+\* collection prints only a pointer)
+RECURSIVE DebugC(_, _)
+DebugItem(sc, it) == IF it.c # 0 THEN DebugC(sc, it.c)
+                     ELSE IF sc.arena[it.s].k = "O" THEN sc.arena[it.s].ms ELSE <<it.s>>
+DebugC(sc, c) ==
+  LET co == sc.colls[c] IN
+  IF co.kind = "boxed" THEN <<>>
+  ELSE Flatten([i \in 1..Len(co.items) |-> DebugItem(sc, co.items[i])])
+
 \* acquisition algorithm family of a collection's own raw operations
 RECURSIVE AlgKind(_, _)
 AlgKind(sc, c) ==
@@ -154,6 +175,10 @@ Derive(sc) ==
                    lv    |-> SeqRange(dl),
                    dup   |-> HasDupSeq(RanksOf(Exposed(sc, c))),
                    pois  |-> PoisIn(sc, c),
+                   gplan |-> GPlanC(sc, c),
+                   pseq  |-> LET g == GPlanC(sc, c) IN
+                             [i \in 1..Len(SelectSeq(g, LAMBDA x : x.p # 0)) |-> SelectSeq(g, LAMBDA x : x.p # 0)[i].p],
+                   dbg   |-> DebugC(sc, c),
                    inner |-> IF sc.colls[c].kind \in {"single", "owned", "pois"}
                              THEN (IF sc.colls[c].items[1].c # 0
                                    THEN sc.colls[sc.colls[c].items[1].c].kind
